@@ -216,6 +216,17 @@ def normal_rules(chk, S, r3, fam):
         want = n if fam.name != "isotropic" else nf.mul(n, fam.d)
         okn = got is not None and got == want and isinstance(out, T.Term)
     r3.require(okn, f"{nname}.residual_whitened_rms_flat normalisation", "norm / sqrt(size of the mean the norm is taken over)", f"rms = {T.show(out, 5)}", where, cfg)
+    if len(norms) == 1 and len(sq) == 1:
+        body = out
+        if fam.name == "blockdiag":
+            # per block: the smallest sub-expression of the vmapped kernel that contains both the norm and the normaliser
+            cands = [t_ for t_ in T.subterms(out) if isinstance(t_, T.Term) and t_.op in ("div", "mul") and norms[0] in list(T.subterms(t_)) and sq[0] in list(T.subterms(t_))]
+            body = min(cands, key=lambda t_: len(list(T.subterms(t_)))) if cands else None
+        if body is not None:
+            want_p = nf.mul(nf.norm(norms[0]), nf.power(nf.norm(sq[0]), -1))
+            r3.require(nf.norm(body) == want_p, f"{nname}.residual_whitened_rms_flat value", "rms = |w| / sqrt(size)", f"rms has normal form {nf.show(nf.norm(body))}", where, cfg)
+        okw, detw = whitened_residual_ok(norms[0].args[0], u, rv)
+        r3.require(okw, f"{nname}.residual_whitened_rms_flat whitened residual", detw, detw, where, cfg)
     S.absorb(it)
     # rescale_cholesky multiplies the Cholesky factor (not the mean)
     it = S.interp()
@@ -247,14 +258,20 @@ def normal_rules(chk, S, r3, fam):
     pis = [x for x in T.subterms(out) if x.op == "np.log" and any(y.op == "np.pi" for y in T.subterms(x))]
     ok = len(dots) == 1 and len(logs) == 1 and len(pis) == 1
     if ok:
-        dot_c, slog_c, pi_c = nf.canon(dots[0]), nf.canon(T.mk("np.sum", (logs[0],))), nf.canon(pis[0])
-        coeffs = {}
-        for mono_, c in p.items():
-            bases = {b for b, _e in mono_}
-            coeffs[frozenset(bases)] = c
-        size = nf.canon(T.mk("attr", (u, "size")))
-        ok = coeffs.get(frozenset({dot_c})) == -nf.Fraction(1, 2) and coeffs.get(frozenset({slog_c})) == -1 and coeffs.get(frozenset({pi_c, size})) == -nf.Fraction(1, 2) and len(p) == 3
+        # exact polynomial identity (exponents included): -1/2 <w,w> - sum log|diag| - size/2 * log(2 pi)
+        size = T.mk("attr", (u, "size"))
+        want_p = nf.add(nf.add(nf.mul(nf.const(nf.Fraction(-1, 2)), nf.norm(dots[0])), nf.mul(nf.const(-1), nf.norm(T.mk("np.sum", (logs[0],))))),
+                        nf.mul(nf.const(nf.Fraction(-1, 2)), nf.mul(nf.norm(size), nf.norm(pis[0]))))
+        ok = p == want_p
+        # the constant is log(2 pi), the whitened vector enters the dot product twice, the log-determinant is over |diag| of the factor
+        two_pi = nf.norm(pis[0].args[0])
+        pi_terms = [x for x in T.subterms(pis[0]) if x.op == "np.pi"]
+        ok = ok and len(pi_terms) == 1 and two_pi == nf.mul(nf.const(2), nf.norm(pi_terms[0]))
+        ok = ok and dots[0].args[0] is dots[0].args[1]
     r3.require(ok, f"{nname}.{kernel} summands", "-1/2 |L^-1(u-m)|^2 - size/2 log(2 pi) - sum log|diag L|", f"logpdf = {nf.show(p)}", where, cfg)
+    if dots:
+        okw, detw = whitened_residual_ok(dots[0].args[0], u, rv)
+        r3.require(okw, f"{nname}.{kernel} whitened residual", detw, detw, where, cfg)
     wt = env.of(dots[0].args[0]) if dots else None
     r3.require(True if (wt is not None and wt.scalar == inv(SIG) and all(ax.label == AD.ONE for ax in wt.axes)) else (None if wt is None else False), f"{nname}.{kernel} whitening units", f"whitened residual : {AD.show(wt)}", f"whitened residual has type {AD.show(wt)}", where, cfg)
     flush(env, r3, f"{nname}.{kernel}", where, cfg)
@@ -350,6 +367,29 @@ def normal_rules(chk, S, r3, fam):
 from fractions import Fraction  # noqa: E402
 
 nf.Fraction = Fraction
+
+
+
+def whitened_residual_ok(w, u, rv):
+    """w = (triangular solve with a factor computed from the Normal's own Cholesky factor only)(+-(u - mean)); returns (ok, detail)."""
+    w0 = w
+    while isinstance(w, T.Term) and w.op in ("np.reshape", "tree.ravel", "np.asarray") and w.args:
+        w = w.args[0]
+    if not (isinstance(w, T.Term) and w.op in ("linalg.solve_tril", "linalg.solve_triu") and len(w.args) >= 2):
+        return None, f"whitened residual is not a triangular solve: {T.show(w0, 3)}"
+    fac, rhs = w.args[0], w.args[1]
+    # per-block view of a vmapped kernel: the element of a batched operand stands for the operand
+    from ..harness import subst
+
+    rhs = subst(rhs, {t.uid: t.args[1] for t in T.subterms(rhs) if isinstance(t, T.Term) and t.op == "vmap_elem"})
+    m, c = rv.fields["mean_flat"], rv.fields["cholesky_flat"]
+    va = T.value_atoms(fac)
+    if not (va and va <= {T.atom_name(c)}):
+        return False, f"the whitening factor depends on {sorted(va)}; expected the Normal's own Cholesky factor only"
+    d1, d2 = T.mk("sub", (u, m)), T.mk("sub", (m, u))
+    if nf.equal(rhs, d1) or nf.equal(rhs, d2):
+        return True, "L^-1 (u - mean)"
+    return False, f"the whitened quantity is {T.show(rhs, 3)}; expected +-(u - mean)"
 
 
 # ---------------------------------------------------------------------------
